@@ -77,7 +77,10 @@ def contexts(case):
     st = contextlib.ExitStack()
     if case.get("langs") == "case":
         st.enter_context(grid.langs(CASE_LANGS))
-    if case.get("names") is not None:
+    if case.get("names") == "dup":
+        # the question inside the group has the same name as the top-level question (legal: different sections)
+        st.enter_context(grid.rows(grid.ROWS, inner=grid.ROWS[0][0]))
+    elif case.get("names") is not None:
         st.enter_context(grid.rows(KEYWORD_ROWS[case["names"]]))
     return st
 
@@ -107,6 +110,8 @@ def expand(block, tier):
             for dl in DEFLANGS[:2]:
                 n += 1
                 yield {"cells": [list(c) for c in (cs[first], *rest)], "dl": dl, "ref": False, "rev": bool(n % 2), "names": n % len(KEYWORD_ROWS)}
+                if dl is None:
+                    yield {"cells": [list(c) for c in (cs[first], *rest)], "dl": dl, "ref": False, "rev": bool(n % 2), "names": "dup"}
         return
     if block[0] == "search":
         _, k, first = block
